@@ -11,6 +11,7 @@ import (
 	"sort"
 	"strconv"
 	"strings"
+	"sync/atomic"
 
 	"github.com/99designs/gqlgen/graphql"
 	"github.com/vektah/gqlparser/v2/ast"
@@ -55,6 +56,9 @@ type Uni struct {
 	KeyPrefix func(ctx context.Context) string
 	// OnCall observes every resolver/directive invocation before it parks.
 	OnCall func(ctx context.Context, kind, path string)
+
+	// PanicsThrown counts the panics raised by resolvers and the directive on behalf of the plan.
+	PanicsThrown atomic.Int32
 
 	bind    map[string]refexec.Binding
 	retType map[string]reflect.Type
@@ -213,6 +217,7 @@ func (u *Uni) call(objType string, fd *ast.FieldDefinition, ft reflect.Type, arg
 	case refexec.KError:
 		return retErr(ft, errors.New(u.Plan.ErrMsg(path)))
 	case refexec.KPanic:
+		u.PanicsThrown.Add(1)
 		panic(u.Plan.PanicMsg(path))
 	case refexec.KNull:
 		return retErr(ft, nil)
@@ -254,6 +259,7 @@ func (u *Uni) Guard(ctx context.Context, obj any, next graphql.Resolver, tag *st
 	case refexec.DError:
 		return nil, errors.New(u.Plan.DirErrMsg(path))
 	case refexec.DPanic:
+		u.PanicsThrown.Add(1)
 		panic(u.Plan.PanicMsg(path + "@guard"))
 	case refexec.DReplace:
 		rt := u.retType[fc.Object+"."+fc.Field.Name]
